@@ -96,6 +96,17 @@ class FuncInfo:
         n = node if node is not None else self.node
         return f"{self.module.rel}:{getattr(n, 'lineno', 0)}"
 
+    @property
+    def nnode(self) -> ast.AST:
+        """The function in normal form (see normalize.py): what shape-matching rules read."""
+        from .normalize import norm
+
+        return norm(self.node)
+
+    @property
+    def ntext(self) -> str:
+        return ast.unparse(self.nnode)
+
     def params(self) -> list[str]:
         a = self.node.args  # type: ignore[attr-defined]
         return [x.arg for x in a.posonlyargs + a.args]
